@@ -76,8 +76,9 @@ def build_and_validate(n, pairs, okind, dflag, share, flagvals=None):
     import sym_metanet as M
     from sym_metanet.errors import InvalidNetworkError
 
-    nodes = [M.Node(name=f"N{i}") for i in range(n)]
-    net = M.Network(name="c06")
+    # names are free text: percent signs, braces and blanks must not matter
+    nodes = [M.Node(name=f"N{i} 50%s {{x}} %d%%") for i in range(n)]
+    net = M.Network(name="c06 %s {0}")
     for nd in nodes:
         net.add_node(nd)
     links = {}
